@@ -368,6 +368,11 @@ def check(F, rep, tier):
 # ---------------------------------------------------------------------------
 STDOUT = ("std::io::stdout", "std::io::_print", "std::io::Stdout")
 def stdout_rules(F, rep, cg, root, rwa, reach):
+    # helpers of cli::app (run_command(..), is_help_or_version_request(..)) are seen through; the pipelines stay calls
+    app_ok = lambda F_, caller, cp, g: g is not None and g.kind != "closure" and cp.startswith("crate::cli::app::") and cp not in (ROOT, RWA) and not cp.endswith("::run_with_args")
+    root_path, rwa_path = root.path, rwa.path
+    root = mir.inlined(F, root, depth=2, ok=app_ok)
+    rwa = mir.inlined(F, rwa, depth=2, ok=app_ok)
     # R13.2 who may touch stdout
     n = 0
     for p in sorted(reach):
@@ -386,7 +391,7 @@ def stdout_rules(F, rep, cg, root, rwa, reach):
     # R13.3 in run_with_args every write to the writer is dominated by the success edge of its pipeline call and prints that payload
     dom = mir.dominators(rwa)
     writes = [(bi, t) for bi, t in rwa.calls() if mir.call_matches(t, ("std::io::Write::write_fmt", "Write>::write_fmt", "Write>::write_all", "std::io::Write::write_all"))]
-    rep.floor("R13.3", "writes to the output writer in run_with_args", len(writes), 4)
+    rep.floor("R13.3", "writes to the output writer in run_with_args", len(writes), 1)
     pipes = {}
     for bi, t in rwa.calls():
         c = mir.callee(t) or ""
@@ -417,23 +422,32 @@ def stdout_rules(F, rep, cg, root, rwa, reach):
         if later:
             rep.bad("R13.3", "write-before-fallible:" + ",".join(later), "output is written before %s runs: if that step fails, stdout is not empty on failure" % later, site)
             continue
-        if len(srcs) == 1:
-            pb = next(iter(srcs))
-            # success edge: a Try::branch on the pipeline result whose Continue arm dominates the write
-            good = False
-            for desc, pol, d in mir.guards_of(rwa, bi):
-                if desc[0] == "discr" and desc[2].startswith("std::ops::ControlFlow<") and isinstance(pol, tuple) and pol[0] == "in" and "Continue" in pol[1]:
-                    os = mir.trace_place(rwa, desc[1], transparent=())
-                    for o in os:
-                        if o.kind == "call" and mir.call_matches(rwa.blocks[o.data]["t"], ("Try>::branch",)):
-                            if any(x.kind == "call" and x.data == pb for x in mir.trace_op(rwa, rwa.blocks[o.data]["t"][2][0], transparent=())): good = True
-            if good: rep.ok("R13.3", "write prints the Ok payload of %s on its success edge" % pipes[pb].rsplit("::", 1)[-1], sample=site, nontrivial_key="w%d" % bi)
-            else: rep.bad("R13.3", "write-before-success:" + pipes[pb].rsplit("::", 1)[-1], "output is written without being dominated by the success edge of %s" % pipes[pb], site)
+        if srcs and not any(p2 in mir.reachable(rwa, p1) for p1 in srcs for p2 in srcs if p1 != p2):
+            # one payload (or several mutually exclusive alternatives, one per sub-command): each must reach the write only
+            # through the success edge of its own `?`
+            bad_src = []
+            try:
+                sps = [sp for sp in mir.sym_paths(rwa, limit=40000) if bi in sp.blocks]
+            except mir.TooManyPaths:
+                rep.undecided("R13.3", "too-many-paths", "run_with_args has too many paths to enumerate", site); continue
+            for sp in sps:
+                upto = sp.blocks[:sp.blocks.index(bi)]
+                for pb in sorted(srcs):
+                    if pb not in upto: continue
+                    # on this path the pipeline ran before the write: the `?` on its result must have continued
+                    cont = False
+                    for d, (rel, vals), b3 in sp.conds:
+                        if d[0] == "discr" and isinstance(d[1], tuple) and d[1][0] == "call" and str(d[1][1]).endswith("Try>::branch") and d[1][2] and isinstance(d[1][2][0], tuple) and d[1][2][0][0] == "call" and d[1][2][0][3] == pb:
+                            if (rel == "eq" and tuple(vals) == (0,)) or (rel == "ne" and 0 not in vals and False): cont = True
+                    if not cont: bad_src.append(pipes[pb].rsplit("::", 1)[-1])
+            bad_src = sorted(set(bad_src))
+            if not bad_src: rep.ok("R13.3", "write prints the Ok payload of %s on its success edge" % sorted(pipes[pb].rsplit("::", 1)[-1] for pb in srcs), sample=site, nontrivial_key="w%d" % bi)
+            else: rep.bad("R13.3", "write-before-success:" + ",".join(bad_src), "output is written without being confined to the success edge of %s" % bad_src, site)
         elif mir.call_matches(t, ("write_all",)) or not srcs:
             # llm-help text / constant output
             rep.ok("R13.3", "write of constant text (help)", sample=site)
         else:
-            rep.bad("R13.3", "write-mixed-payload", "an output write combines results of %d pipeline calls" % len(srcs), site)
+            rep.bad("R13.3", "write-mixed-payload", "an output write combines results of %d pipeline calls that can run in the same execution" % len(srcs), site)
     # each pipeline result is written at most once
     # R13.4 exit path in run(): error arm -> _eprint then process::exit(1); _print only for help/version kinds
     exits = [(bi, t) for bi, t in root.calls() if mir.call_matches(t, ("std::process::exit",))]
